@@ -2,7 +2,7 @@ import os
 import socket
 import struct
 from typing import Optional
-from urllib.parse import unquote, urlparse
+from urllib.parse import unquote, urlparse, urlsplit
 from ._exceptions import WebSocketProxyException
 
 """
@@ -42,7 +42,8 @@ def parse_url(url: str) -> tuple:
 
     scheme, url = url.split(":", 1)
 
-    parsed = urlparse(url, scheme="http")
+    # urlsplit, unlike urlparse, leaves ";parameters" of the last path segment in the path
+    parsed = urlsplit(url, scheme="http")
     if parsed.hostname:
         hostname = parsed.hostname
     else:
